@@ -40,7 +40,6 @@ func probeCommit(st *store.ImmuStore, kvs ...string) (*store.TxHeader, error) {
 
 const kReaderOwnTail = "K05a-reader-phantom-before-own-write-at-tail"
 const kPrefixOwnFirst = "K05b-getwithprefix-own-write-unvalidated"
-const kPrefixOwnSkipped = "K05d-getwithprefix-own-deleted-entry-skipped-unvalidated"
 const kMultiIdxSkip = "K05c-multi-index-validation-skipped-by-first-snapshot"
 
 // probeReaderOwnTail: a key reader of a read-write tx whose last read returned the tx's own
@@ -122,41 +121,6 @@ func probePrefixOwnFirst() (bool, string) {
 	return false, ""
 }
 
-// probePrefixOwnSkipped: a prefix lookup that skipped an entry deleted by the tx itself and returned a
-// committed entry records nothing in the read-set; a concurrent insert between the two is not detected.
-func probePrefixOwnSkipped() (bool, string) {
-	dir := vk.Dir()
-	defer os.RemoveAll(dir)
-	st, err := store.Open(dir, probeOpts())
-	if err != nil {
-		return false, ""
-	}
-	defer st.Close()
-	ctx := context.Background()
-	if _, err := probeCommit(st, "k1", "a", "k5", "a"); err != nil {
-		return false, ""
-	}
-	tx, err := st.NewTx(ctx, store.DefaultTxOptions())
-	if err != nil {
-		return false, ""
-	}
-	if err := tx.Delete(ctx, []byte("k1")); err != nil {
-		return false, ""
-	}
-	k, ref, err := tx.GetWithPrefix(ctx, []byte("k"), nil)
-	if err != nil || string(k) != "k5" || ref.Tx() != 1 {
-		return false, "" // lookups do not skip filtered entries on this tree: the scenario does not exist
-	}
-	if _, err := probeCommit(st, "k3", "phantom"); err != nil { // tx 2
-		return false, ""
-	}
-	hdr, err := tx.Commit(ctx)
-	if err == nil {
-		return true, fmt.Sprintf("tx1={k1,k5}; T: Delete(k1); GetWithPrefix(k)=k5@tx1; tx2={k3}; T.Commit succeeded as tx %d although executed at that point GetWithPrefix(k) returns k3", hdr.ID)
-	}
-	return false, ""
-}
-
 // probeMultiIdxSkip: with two indexes, checkPreconditions returns as soon as the first snapshot of
 // the tx is newer than the last precommitted tx, without validating reads done on other (stale) snapshots.
 func probeMultiIdxSkip() (bool, string) {
@@ -215,7 +179,7 @@ func TestProbesDebug(t *testing.T) {
 	for _, p := range []struct {
 		id string
 		f  func() (bool, string)
-	}{{kReaderOwnTail, probeReaderOwnTail}, {kPrefixOwnFirst, probePrefixOwnFirst}, {kPrefixOwnSkipped, probePrefixOwnSkipped}, {kMultiIdxSkip, probeMultiIdxSkip}} {
+	}{{kReaderOwnTail, probeReaderOwnTail}, {kPrefixOwnFirst, probePrefixOwnFirst}, {kMultiIdxSkip, probeMultiIdxSkip}} {
 		ok, d := p.f()
 		t.Logf("%s present=%v %s (%v)", p.id, ok, d, time.Since(t0))
 	}
